@@ -71,7 +71,7 @@ func init() {
 				n = 30000
 			}
 			return fw.Meta{N: n, Level: "exploration", Chunk: 50, CaseTimeoutS: 120, MinNT: 200,
-				Rule:        "one case = one file written by the real writer (0..25 records: nil, empty, random, compressible, marker-laden, a few with stored length >= 16 KiB / >= 2 MiB varint groups) under each of the 4 compression types, one file in four by a program that rolls records back (seek to a written record's offset after 0..2 further, mostly nil, records and rewrite it, often as the last action before Close); differential oracle: Kaitai-generated reader vs native sequential reader vs the harness's independent layout parser: parse succeeds, same record count, same nil flags, payload == stored bytes, decompress(stored) == native record, header compression code maps to the enum constant of the same algorithm. Non-trivial: compressed file with >=1 nil and >=1 empty record, or any file with >=3 records; distinct by content hash",
+				Rule:        "one case = one file written by the real writer (0..25 records: nil, empty, random, compressible, marker-laden, a few with stored length >= 16 KiB / >= 2 MiB varint groups) under each of the 4 compression types, one file in four by a program that rolls records back (seek to a written record's offset after 0..2 further, mostly nil, records and rewrite it, often as the last action before Close); differential oracle: Kaitai-generated reader vs native sequential reader vs the harness's independent layout parser: parse succeeds, same record count, same nil flags, payload == stored bytes, decompress(stored) == native record, header compression code maps to the enum constant of the same algorithm. Non-trivial: compressed file with >=1 nil and >=1 empty record, or any file with >=3 records; distinct by content hash Three of four rollback programs hand the writer a file handle instead of a path (fresh, recycled after Truncate with a non-zero offset, or opened with O_APPEND).",
 				MinObs:      map[string]int64{"records_compared": 5000, "nil_records_in_compressed_files": 100, "empty_records_in_compressed_files": 100, "files_gzip": 50, "files_snappy": 50, "files_lzw": 50, "files_none": 50, "three_group_lengths": 5, "rollbacks": 100},
 				Assumptions: []string{"the Go reader generated from the schema (kaitai/gokaitai) stands for the schema; kaitai-struct-compiler is not available offline"},
 			}
